@@ -388,3 +388,97 @@ func switchCasesOn(p *packages.Package, root ast.Node, field string) [][]string 
 	})
 	return out
 }
+
+// ruleRetryHelper checks a retry wrapper `func(…, f func() error, …) error`
+// on all of its paths: nil is returned only when the last attempt returned
+// nil (or no attempt was made); otherwise the result is the last attempt's
+// error or the context's error. A wrapper that loses the error of the last
+// failed attempt turns "gave up" into "succeeded".
+func ruleRetryHelper(w *core.World, r *core.Report, name string) {
+	f := fn(w, r, name)
+	if f == nil {
+		return
+	}
+	var fpar ssa.Value
+	for _, p := range f.Params {
+		if sig, ok := p.Type().Underlying().(*types.Signature); ok && sig.Params().Len() == 0 && sig.Results().Len() == 1 {
+			fpar = p
+		}
+	}
+	if fpar == nil {
+		r.Undecided(shortName(name)+"/propagates-last-failure", f.Pos(), "no attempt callback parameter found")
+		return
+	}
+	bad := ""
+	var badPos token.Pos
+	n := 0
+	core.EnumPathsN(f.Blocks[0], 0, 100000, core.Unroll, func(p *core.Path) {
+		ret, ok := p.End.(*ssa.Return)
+		if !ok || len(ret.Results) != 1 || bad != "" {
+			return
+		}
+		n++
+		var last *ssa.Call
+		for _, in := range p.Instrs {
+			if c, ok := in.(*ssa.Call); ok && c.Call.Value == fpar {
+				last = c
+			}
+		}
+		var vals []ssa.Value
+		for _, v := range core.RetVals(ret, 0) {
+			vals = append(vals, p.Resolve(v))
+		}
+		if len(vals) == 0 {
+			vals = []ssa.Value{p.Resolve(ret.Results[0])}
+		}
+		for _, v := range vals {
+			v = core.Unwrap(v)
+			if last == nil {
+				continue // no attempt on this path
+			}
+			if v == ssa.Value(last) {
+				continue
+			}
+			if c, ok := v.(*ssa.Call); ok && c.Call.IsInvoke() && c.Call.Method.Name() == "Err" {
+				continue // the context's error
+			}
+			if core.IsNilConst(v) {
+				// allowed only when the last attempt is known to have succeeded
+				succeeded := false
+				for _, fct := range p.Conds {
+					c, ok := core.AsCmp(fct.Cond, fct.Val)
+					if ok && c.Op == token.EQL && core.Unwrap(p.Resolve(c.X)) == ssa.Value(last) && core.IsNilConst(c.Y) {
+						succeeded = true
+					}
+				}
+				if succeeded {
+					continue
+				}
+				bad, badPos = "nil is returned on a path whose last attempt failed (or was not tested): the caller takes a failed operation for a successful one", ret.Pos()
+				continue
+			}
+			if ph, ok := v.(*ssa.Phi); ok {
+				// a loop-carried error variable: every non-nil-constant edge must be an attempt's result
+				okPhi := true
+				for _, e := range ph.Edges {
+					e = core.Unwrap(e)
+					if c, ok := e.(*ssa.Call); ok && c.Call.Value == fpar {
+						continue
+					}
+					if core.IsNilConst(e) || e == ssa.Value(ph) {
+						continue
+					}
+					if _, isPhi := e.(*ssa.Phi); isPhi {
+						continue
+					}
+					okPhi = false
+				}
+				if okPhi {
+					continue
+				}
+			}
+			bad, badPos = "the result is neither the last attempt's error nor the context's error: "+v.String(), ret.Pos()
+		}
+	})
+	r.Check(bad == "" && n > 0, shortName(name)+"/propagates-last-failure", badPos, "%s", bad)
+}
